@@ -80,8 +80,7 @@ def rule_c04(an, res):
                 if k == 'CFG':
                     # "the TTL in force for that write" is whatever update_ttl stored: it must store its argument, always
                     effs = top.state_effects()
-                    ok = (len(effs) == 1 and effs[0].kind == 'CFG' and effs[0].field == roles.ttl and effs[0].direct
-                          and effs[0].val == ('p', m.params[0].get('name')))
+                    ok = cfg_store_ok(top, roles, m, effs)
                     res.ob('R-CFG-ONLY', ok=ok)
                     if not ok:
                         V(res, prop, 'R-CFG-ONLY', cm, m.key(), 'update_ttl does not unconditionally store the new duration',
@@ -122,6 +121,19 @@ def check_refile(res, prop, cm, roles, m, b):
             res.ob('R-REFILE-ON-UPDATE', ok=False)
             V(res, prop, 'R-REFILE-ON-UPDATE', cm, b.where, 'deadline written on a path that does not write the entry', deadline_effects(seg)[0].site,
               'path [%s]' % val)
+        elif present is True:
+            # a write the caller is told succeeded restarts the entry's ttl: reporting success while the old deadline stays makes
+            # every later expiry decision (lookup, purge, expired-first eviction) use a deadline the entry no longer has
+            from rules_seq import ret_truth, tally_info
+            if b.in_loop is None:
+                claimed = ret_truth(seg) is True
+            else:
+                name, incs = tally_info(b.top, b)
+                claimed = name is not None and any(e.how != 'decl' and ops.is_increment(e, name) for e in incs)
+            res.ob('R-REFILE-ON-UPDATE', ok=not claimed)
+            if claimed:
+                V(res, prop, 'R-REFILE-ON-UPDATE', cm, b.where, 'write reported successful leaves the old deadline in place', site_of_seg(seg, m),
+                  'path [%s]: the operation reports success for a resident key but neither its deadline nor its ttl position changes' % val)
         return
     dls = deadline_effects(seg)
     if cls == 'UPDATE':
@@ -489,6 +501,24 @@ def ttl_source_ok(cm, roles, m, seg, d):
     return is_ld(d) and d[2] == THIS(cfg)
 
 
+def cfg_store_ok(top, roles, m, effs):
+    """update_ttl stores its argument: one direct store of the parameter, or nothing on the path that has established that the
+    configured value already equals the argument"""
+    p = ('p', m.params[0].get('name'))
+    if len(effs) == 1 and effs[0].kind == 'CFG' and effs[0].field == roles.ttl and effs[0].direct and effs[0].val == p:
+        return True
+    if effs:
+        return False
+    for c in top.conds:
+        raw = c[4]
+        if isinstance(raw, tuple) and raw and raw[0] == 'cmp' and raw[1] in ('==', '!='):
+            sides = {raw[2], raw[3]}
+            cur = [x for x in sides if is_ld(x) and x[2] == THIS(roles.ttl)]
+            if len(sides) == 2 and cur and p in sides and c[5] is (raw[1] == '=='):
+                return True
+    return False
+
+
 def rule_c05(an, res):
     prop = 'C05'
     for cm, roles in an.classes(TTL_CONTAINERS):
@@ -498,8 +528,7 @@ def rule_c05(an, res):
                 clocks = clock_syms(top)
                 if k == 'CFG':
                     effs = top.state_effects()
-                    ok = (len(effs) == 1 and effs[0].kind == 'CFG' and effs[0].field == roles.ttl and effs[0].direct
-                          and effs[0].val == ('p', m.params[0].get('name')))
+                    ok = cfg_store_ok(top, roles, m, effs)
                     res.ob('R-CFG-ONLY', ok=ok)
                     if not ok:
                         V(res, prop, 'R-CFG-ONLY', cm, m.key(), 'update_ttl does more (or less) than storing the new duration',
@@ -811,6 +840,23 @@ def check_purge_tally(res, prop, cm, roles, m, top):
             bkey = sw[0][1]
             ok = (is_begin_of(resolve_local(top, d[2][0], None), roles.ttl_struct) and isinstance(d[2][1], tuple)
                   and d[2][1][:3] == ('lv', bkey[0], bkey[1]))
+    if not ok and pl and isinstance(r, tuple) and r and r[0] == 'lv':
+        # two-pass purge whose first pass counts: the scan loop steps its iterator and the counter once per expired node, the sweep
+        # loop removes exactly the nodes of [head, B) (R-PURGE-SHAPE), B being where that scan stopped
+        lp, segs = top.loops[pl[0]]
+        sw = [ops.sweep_bound(s) for s in segs if s.status == 'continue']
+        bounds = ops.scan_boundaries(top)
+        scan = next((v for (nm, lid), v in bounds.items() if lid == r[2]), None)
+        if scan is not None and sw and all(x is not None and x[1][1] == r[2] for x in sw):
+            name = ops.tally_var(r)
+            init = ops.local_writes(top, name, decl=True)
+            ok = len(init) == 1 and init[0].val == ('int', 0)
+            for s2 in scan[1]:
+                incs = ops.local_writes(s2, name)
+                good = [e for e in incs if ops.is_increment(e, name)]
+                want = 1 if s2.status == 'continue' else 0
+                if len(incs) != want or len(good) != want:
+                    ok = False
     res.ob('R-CLEAN-TALLY', ok=ok)
     if not ok:
         V(res, prop, 'R-CLEAN-TALLY', cm, m.key(), 'returned count is not the number of purged entries', site_of_seg(top, m),
